@@ -116,7 +116,7 @@ def C01(tier, seed):
 
 def C02(tier, seed):
     chk = Check('C02', tier, seed)
-    be = [0, 2, 3] + ([1, 4, 5] if tier == 'thorough' else [])
+    be = [0, 2, 3] + ([4] if tier == 'thorough' else [])
     oracle_units(chk, ['F1', 'H2', 'H3'], be, 'C02', proj=('G', 'A', 'E', 'X'), check_result=False)
     oracle_units(chk, ['X'], [0, 3], 'C02', proj=('G', 'A', 'E', 'X'), check_result=False, max_confs=(60 if tier == 'thorough' else 12))
     return chk
@@ -124,14 +124,14 @@ def C02(tier, seed):
 
 def C06(tier, seed):
     chk = Check('C06', tier, seed)
-    be = [0, 2, 3] + ([1, 4, 5] if tier == 'thorough' else [])
+    be = [0, 2, 3] + ([4] if tier == 'thorough' else [])
     oracle_units(chk, ['R2', 'R3', 'H2', 'F1'], be, 'C06', proj=('G', 'A', 'N'), check_post=False)
     return chk
 
 
 def C07(tier, seed):
     chk = Check('C07', tier, seed)
-    be = [0, 2, 3] + ([1, 4, 5] if tier == 'thorough' else [])
+    be = [0, 2, 3] + ([4] if tier == 'thorough' else [])
     oracle_units(chk, ['H2', 'H3'], be, 'C07')
     return chk
 
